@@ -6,6 +6,7 @@
 pub mod alloc;
 pub mod cpu;
 pub mod panicmon;
+pub mod layoutx;
 pub mod model;
 pub mod muxdrive;
 pub mod prng;
@@ -80,6 +81,8 @@ fn parse_args() -> Args {
 fn main() {
     let args = parse_args();
     panicmon::install();
+    // CPU watchdog of last resort (a pure CPU loop that no stream budget can cut)
+    cpu::limit_cpu_seconds(if args.tier == "thorough" { 14_400 } else { 1_800 });
     let code = props::run(&args);
     std::process::exit(code);
 }
